@@ -159,7 +159,7 @@ def check_common(F, rep):
         # value-based (the constructor may be reached through a private helper or be passed to one as a function): the result fields
         # written under sh_type == K hold a value built from exactly one call of `helper`
         under_k = lambda facts: any(f[0] == "eq" and f[2] == K and f[1].op == "proj" and f[1].args[1][2] == "sh_type" for f in facts)
-        hcalls, got = [], set()
+        hcalls, got, extra = [], set(), set()
         for b, env in an.exit_env.items():
             if b not in an.entry or not under_k(an.exit_facts.get(b, ())):
                 continue
@@ -171,6 +171,13 @@ def check_common(F, rep):
                             if x not in hcalls:
                                 hcalls.append(x)
                             got.add(path[0][2])
+                            for f in an.exit_facts.get(b, ()):
+                                if f[0] in ("true", "false", "eq", "ne") and isinstance(f[1], Term) and \
+                                        any(y.op == "proj" and y.args[1][0] == "f" and str(y.args[1][2]).startswith("sh_") and y.args[1][2] != "sh_type"
+                                            for y in f[1].subterms()):
+                                    txt = pp(f[1])
+                                    short = (txt.split("(")[0] + "(shdr" if f[0] in ("true", "false") else "shdr") + txt.split("!Some")[-1]
+                                    extra.add("%s %s" % (f[0], short) if f[0] in ("true", "false") else "%s %s %s" % (short, f[0], f[2]))
         if len(hcalls) != 1:
             rep.bad("common-data", "arm:%s" % cname, w, "find_common_data does not call %s exactly once under sh_type == %s (found %d)" % (helper, cname, len(hcalls)))
             continue
@@ -183,6 +190,11 @@ def check_common(F, rep):
         arm_args[cname] = (helper, a)
         rep.require(got == fields, "common-data", "arm:%s" % cname, cs_where, "%s -> %s stored in %s" % (cname, helper.split("::")[-2] + "::" + helper.split("::")[-1], sorted(fields)),
                     "under sh_type == %s the result of %s is stored in %s, expected %s" % (cname, helper, sorted(got), sorted(fields)))
+        # discovery = targeted accessor: a section of the kind is taken whatever its other header fields say (the accessors look at
+        # sh_type only); a further condition on the header in front of the arm leaves the field empty where the accessor answers
+        rep.require(not extra, "common-data", "arm-unconditional:%s" % cname, cs_where, "the %s arm is taken on sh_type alone" % cname,
+                    "find_common_data stores the %s result only under a further condition on the section header (%s): the targeted accessor "
+                    "has no such condition, so the two disagree for headers that fail it" % (cname, "; ".join(sorted(extra))[:300]))
         cs = type("S", (), {"where": staticmethod(lambda: cs_where)})()
         # argument provenance of the arm
         me = P(1)
@@ -365,6 +377,14 @@ def check_common(F, rep):
                     "%s does not build the PT_DYNAMIC fallback table over data[p_offset .. p_offset+p_filesz] of the first PT_DYNAMIC segment" % q)
 
 
+def _no_tables(d, val):
+    """a decision that by-passes the by-name search legitimately: a variant test on what section_headers_with_strtab() returned, or
+    an emptiness test of the section header table (nothing that depends on the queried name)"""
+    txt = show(d)
+    return (d[0] == "discr" and "section_headers_with_strtab" in txt and "!Ok" in txt) or \
+        (d[0] in ("Eq", "Ne", "Lt") and "shdrs" in txt and ("len(" in txt or "is_empty" in txt) and "arg2" not in txt)
+
+
 def check_by_name(F, rep):
     for q in ("elf_bytes::ElfBytes::section_header_by_name", "elf_stream::ElfStream::section_header_by_name"):
         fn = F.fn(q)
@@ -383,6 +403,10 @@ def check_by_name(F, rep):
         rep.require(good, "by-name", q + ":first-match", w, "Iterator::find (first match in table order)", "%s searches with %s" % (q, [c.declared_norm for c in searches]))
         if not good:
             continue
+        # completeness: the search is by-passed (an answer given without it) only because there are no section headers / no name table
+        from ..hashrules import early_exits
+        early_exits(an, rep, "by-name", q, w, _no_tables, "no section headers, no section-name string table", target=searches[0].block,
+                    subject="the search over the section headers", lost="a section with that name is reported absent")
         clo = searches[0].args[1]
         cf = F.fn(clo.args[1]) if clo.op == "agg" and clo.args[0] == "closure" else None
         if cf is None:
@@ -498,6 +522,9 @@ def by_name_loop(F, rep, q, fn, an, w):
         if not somes or not all(norm(t.args[4][0].args[4][0]) == norm(item) for t in somes):
             msgs.append("the returned header is not the one whose name matched")
     rep.require(not msgs, "by-name", q + ":predicate", w, "first header whose readable name equals the query (loop form)", "%s: %s" % (q, "; ".join(msgs)))
+    from ..hashrules import early_exits
+    early_exits(an, rep, "by-name", q, w, _no_tables, "no section headers, no section-name string table",
+                subject="the search over the section headers", lost="a section with that name is reported absent")
 
 
 def run(ctx, rep):
